@@ -74,8 +74,11 @@ func c08Gen(thorough bool) func(emit func(*h1.Scenario)) {
 func c08TwoCycleGen() func(emit func(*h1.Scenario)) {
 	modes := []int{h1.HashEqual, h1.HashDiffReject, h1.HashDiffAcceptEqual, h1.HashDiffAcceptStill, h1.HashDiffAcceptGetFail}
 	return func(emit func(*h1.Scenario)) {
+		// modes of the second cycle also: the runtime-info request fails (-1), the status request fails (-2), the
+		// pod is not ready (-3) - what the coordinator learnt about the shard in the first cycle must not be used
+		modes2 := append(append([]int{}, modes...), -1, -2, -3)
 		for _, m1 := range modes {
-			for _, m2 := range modes {
+			for _, m2 := range modes2 {
 				for _, pos := range []int{0, 1} {
 					for _, head := range []int64{0, 100} {
 						mk := func(mode int) []h1.Replica {
@@ -84,13 +87,25 @@ func c08TwoCycleGen() func(emit func(*h1.Scenario)) {
 							b.Copy(0, 100, h1.St{Health: "up", Times: 5, Series: 40, Total: 40})
 							b.Target(200, 30, 30, true, "up")
 							b.Copy(1, 200, h1.St{Health: "up", Times: 5, Series: 30, Total: 30})
-							b.Rep.Shards[pos].HashMode = mode
+							// a small target that no shard reports (new, or lost with its shard's store)
+							b.Target(300, 10, 10, true, "up")
+							switch mode {
+							case -1:
+								b.Rep.Shards[pos].RuntimeFail = true
+							case -2:
+								b.Rep.Shards[pos].StatusGetFail = true
+							case -3:
+								b.Rep.Shards[pos].Ready = false
+							default:
+								b.Rep.Shards[pos].HashMode = mode
+							}
 							sc := b.Done(10)
 							return sc.Cycles[0]
 						}
 						b := newB(h1.Opt{MaxHead: head, MaxProc: 100, MaxShard: 99, IdleSec: 3600}, 2)
 						b.Target(100, 40, 40, true, "up")
 						b.Target(200, 30, 30, true, "up")
+						b.Target(300, 10, 10, true, "up")
 						sc := b.Done(10)
 						sc.Cycles = [][]h1.Replica{mk(m1), mk(m2)}
 						sc.Note = fmt.Sprintf("two cycles: shard %d %s then %s", pos, shNames[classOf(&sc.Cycles[0][0].Shards[pos])], shNames[classOf(&sc.Cycles[1][0].Shards[pos])])
